@@ -24,7 +24,9 @@ func runC14(r *engine.Run) {
 	r.Rule("AGREE-lockstep", "MergeState builds the key list and the node list in lock step: every block that appends to or resets one of them does the same to the other, so that keys[i] always belongs to nodes[i] when they are handed to MultiPutNode")
 	r.Rule("AGREE-typecode", "GetSerializationPrefix (type -> code) and CreateNode (code -> constructor) are inverse on the four node types")
 	r.Rule("AGREE-origin", "OriginTracker.Write and OriginTracker.Read use the same (byte order, field) sequence; writeNodePrefix and CreateNode agree on the header order (one code byte, then the origin tracker, then the body)")
+	r.Rule("AGREE-clonefields", "in the Clone/CloneNode methods of the node types (and of the origin tracker they embed), whenever a value read from field F of the source (directly or through a plain getter) is handed to a setter, constructor or helper, the parameter it is bound to is stored into field F of the copy - origin into origin, version into version (getter/setter/constructor summaries over static callees, two levels)")
 	r.Rule("AGREE-fields", "for each node type the number of separators written by encode (with constant loop multiplicity) equals the number of separator scans in Decode, the fields are written and read in the same order, child keys are hex on both sides and the node key raw on both sides, and the only fields that may contain a separator byte (value bytes, raw node key) are written after the last separator")
+	r.Rule("FRESH-bytes", "see C03: the byte slices handed out by the node accessors (MarshalMsg, Encode, GetHashBytes, GetValueBytes in core/util) are new buffers on every return: nil, make/conversion results, results of calls that produce new buffers, or appends to such; never a field, element, global or map entry. FRESH-node relies on this, and callers of GetNodeValueRaw own (and may overwrite) the slice they get")
 	r.Rule("FRESH-node", "see C03: no trie operation edits in place a node object that the store or the node cache handed out: the memory store would then hold that object under the hash it had before the edit (an entry that is not addressed by its own hash)")
 	r.Rule("AGREE-fieldset", "for LeafNode, FullNode and ExtensionNode: every field the private encode reads has a buffer write that depends on it (it is persisted and hashed); Decode assigns exactly those fields; CloneNode (the copy the memory store keeps) sets each of them and the origin tracker. Accessor methods (GetValue/SetValue, GetChild/PutChild, ...) count as uses of the field they stand for")
 	r.NotDec = append(r.NotDec, "byte-exact round trip for every value (value-level)")
@@ -37,6 +39,7 @@ func runC14(r *engine.Run) {
 	lockstep(r)
 	freshNode(r, "C14")
 	agreeFieldSet(r, "AGREE-fieldset")
+	agreeCloneFields(r, "AGREE-clonefields")
 }
 
 func keyOwnHash(r *engine.Run) {
@@ -847,5 +850,198 @@ func agreeFieldSet(r *engine.Run, rule string) {
 	}
 	if n < 20 {
 		r.Anchor(rule, fmt.Errorf("unresolved anchor: %d field obligations over the node codecs", n))
+	}
+}
+
+// ---- AGREE-clonefields: a copy carries each tracked field into the same field ----------------
+
+// calleesAt: the repository functions a call may reach (static callee, or every
+// implementation the call graph resolves an interface invoke to).
+func calleesAt(g *engine.RepoCG, c *ssa.Call) []*ssa.Function {
+	if sc := c.Call.StaticCallee(); sc != nil {
+		if inRepo(sc) && len(sc.Blocks) > 0 {
+			return []*ssa.Function{sc}
+		}
+		return nil
+	}
+	var out []*ssa.Function
+	for _, e := range g.Out[c.Parent()] {
+		if e.Site == ssa.Instruction(c) && e.Callee != nil && len(e.Callee.Blocks) > 0 {
+			out = append(out, e.Callee)
+		}
+	}
+	return out
+}
+
+// argOffset: parameter index of the first explicit argument of a call into fn
+// (an invoke does not list the receiver among its arguments).
+func argOffset(c *ssa.Call) int {
+	if c.Call.IsInvoke() {
+		return 1
+	}
+	return 0
+}
+
+// paramFields: for each parameter of g the names of the struct fields it is
+// stored into, directly or through callees (two levels).
+func paramFields(cg *engine.RepoCG, g *ssa.Function, depth int) map[int]map[string]bool {
+	out := map[int]map[string]bool{}
+	if g == nil || len(g.Blocks) == 0 || depth > 3 {
+		return out
+	}
+	idx := map[ssa.Value]int{}
+	for i, p := range g.Params {
+		idx[p] = i
+	}
+	add := func(i int, f string) {
+		if out[i] == nil {
+			out[i] = map[string]bool{}
+		}
+		out[i][f] = true
+	}
+	engine.Instrs(g, func(in ssa.Instruction) {
+		switch x := in.(type) {
+		case *ssa.Store:
+			if i, ok := idx[stripConv(x.Val)]; ok {
+				if fld := engine.FieldOf(x.Addr); fld != nil {
+					add(i, fld.Name())
+				}
+			}
+		case *ssa.Call:
+			for _, sc := range calleesAt(cg, x) {
+				if sc == g {
+					continue
+				}
+				sub := paramFields(cg, sc, depth+1)
+				off := argOffset(x)
+				for j, a := range x.Call.Args {
+					if i, ok := idx[stripConv(a)]; ok {
+						for f := range sub[j+off] {
+							add(i, f)
+						}
+					}
+				}
+			}
+		}
+	})
+	return out
+}
+
+// resultFields: the fields whose value g may return (through getters, also
+// behind an interface: the union over the implementations the call graph
+// resolves to). Returns that are not field reads contribute "?".
+func resultFields(cg *engine.RepoCG, g *ssa.Function, depth int, seen map[*ssa.Function]bool) map[string]bool {
+	out := map[string]bool{}
+	if g == nil || len(g.Blocks) == 0 || depth > 4 || seen[g] {
+		return out
+	}
+	seen[g] = true
+	defer delete(seen, g)
+	for _, ret := range engine.Returns(g) {
+		if len(ret.Results) != 1 {
+			out["?"] = true
+			continue
+		}
+		for f := range valueFields(cg, resultValue(ret, 0), depth, seen) {
+			out[f] = true
+		}
+	}
+	return out
+}
+
+func valueFields(cg *engine.RepoCG, v ssa.Value, depth int, seen map[*ssa.Function]bool) map[string]bool {
+	v = stripConv(v)
+	if _, fld, ok := loadOfField(v); ok {
+		return map[string]bool{fld: true}
+	}
+	if c, ok := v.(*ssa.Call); ok {
+		out := map[string]bool{}
+		cs := calleesAt(cg, c)
+		if len(cs) == 0 {
+			return map[string]bool{"?": true}
+		}
+		for _, sc := range cs {
+			for f := range resultFields(cg, sc, depth+1, seen) {
+				out[f] = true
+			}
+		}
+		return out
+	}
+	return map[string]bool{"?": true}
+}
+
+// valueField: the single field v reads, "" when unknown or ambiguous.
+func valueField(cg *engine.RepoCG, in *ssa.Function, v ssa.Value, depth int) string {
+	fs := valueFields(cg, v, depth, map[*ssa.Function]bool{})
+	if len(fs) != 1 {
+		return ""
+	}
+	for f := range fs {
+		if f != "?" {
+			return f
+		}
+	}
+	return ""
+}
+
+func agreeCloneFields(r *engine.Run, rule string) {
+	n := 0
+	cg := r.P.RepoCG()
+	for _, f := range funcsOfPkg(r, pkgUtil) {
+		if f.Parent() != nil || f.Signature.Recv() == nil || len(f.Blocks) == 0 || isGenFile(r, f.Pos()) {
+			continue
+		}
+		if f.Name() != "Clone" && f.Name() != "CloneNode" {
+			continue
+		}
+		if !nodeTypeNames[recvNamed(f)] {
+			continue
+		}
+		r.Touch(f)
+		o := ord{}
+		engine.Instrs(f, func(in ssa.Instruction) {
+			if st, isSt := in.(*ssa.Store); isSt {
+				// a literal or direct assignment: copy.F = <value read from source field G>
+				dst := engine.FieldOf(st.Addr)
+				src := valueField(cg, f, st.Val, 0)
+				if dst != nil && src != "" {
+					if _, isBasic := dst.Type().Underlying().(*types.Basic); isBasic {
+						n++
+						r.Check(dst.Name() == src, rule, o.next(fn(f)+"|"+src), r.P.Pos(st.Pos()), "the source's "+src+" goes into the copy's "+src,
+							"the copy's "+dst.Name()+" is set from the source's "+src+": origin and version are part of what a node hashes and encodes, so the copy a store keeps differs from the node it was handed and sits under a key that is not its hash")
+					}
+				}
+				return
+			}
+			x, ok := in.(*ssa.Call)
+			if !ok {
+				return
+			}
+			for _, sc := range calleesAt(cg, x) {
+				if sc == f {
+					continue
+				}
+				pf := paramFields(cg, sc, 0)
+				off := argOffset(x)
+				for j, a := range x.Call.Args {
+					src := valueField(cg, f, a, 0)
+					into := pf[j+off]
+					if src == "" || len(into) == 0 {
+						continue
+					}
+					n++
+					var names []string
+					for k := range into {
+						names = append(names, k)
+					}
+					sort.Strings(names)
+					r.Check(into[src], rule, o.next(fn(f)+"|"+src), r.P.Pos(x.Pos()), "the source's "+src+" goes into the copy's "+src,
+						"the copy is given the source's "+src+" as its "+strings.Join(names, "/")+" (through "+fn(sc)+"): origin and version are part of what a node hashes and encodes, so the copy a store keeps differs from the node it was handed and sits under a key that is not its hash")
+				}
+			}
+		})
+	}
+	if n < 2 {
+		r.Anchor(rule, fmt.Errorf("unresolved anchor: only %d field hand-overs found in the Clone/CloneNode methods of the node types", n))
 	}
 }
